@@ -505,3 +505,124 @@ Theorem C17_nushell_script_quote_in_name_refuted :
 Proof. exact NushellLexProofs.nushell_quote_in_name_refuted. Qed.
 Print Assumptions C17_nushell_script_quote_in_name_refuted.
 (* ---- end nushell generator model ---- *)
+
+(* ---- zsh generator model ---- *)
+(** Whole-script structure invariance for zsh, level 1 (shell words).  [Complete/ZshModel.v] is a byte-exact model of
+    clap_complete/src/aot/shells/zsh.rs (compared with the real generator's file on every run, streams [zsh-model] of
+    C16 and C17).  The file is a list of pieces: [Zx b] text the generator writes itself, [Zh t] a text written through
+    escape_help (help of an option or flag inside [...], about of a subcommand in a [_describe] item, tooltip of a possible
+    value inside "..."), [Zp t] the help of a positional written through the in-line replace chain after " -- " -- so
+    WHICH slot goes through WHICH escape is part of the model.  [ztame_cmd]: none of the bytes 34, 39, 92, 35 in any
+    command name, alias, option spelling, possible value, argument id or bin name.  [erase_desc] keeps only which texts are present. *)
+From ClapModel Require Import Complete.AotTree Complete.FishModel Complete.FishLexProofs Complete.ZshModel Complete.ZshProofs Complete.ZshLexProofs.
+
+(** the fixed text of the file does not depend on the description texts (every tree) *)
+Theorem C17_zsh_script_fixed_text : forall bl c d,
+  zsh_pieces bl c (erase_desc d) = option_map' (map zperase) (zsh_pieces bl c d).
+Proof. exact zsh_pieces_erase. Qed.
+Print Assumptions C17_zsh_script_fixed_text.
+
+(** every slot of the file of a tame tree is met by zsh's word lexer inside a single-quoted word, whatever the texts;
+    the file ends between words *)
+Theorem C17_zsh_script_slots_quoted : forall bl c d ps,
+  ztame_cmd c = true -> zsh_pieces bl c d = Some ps -> exists st, zrun ZB ps = Some st /\ zbare st = true.
+Proof. exact zsh_file_runs. Qed.
+Print Assumptions C17_zsh_script_slots_quoted.
+
+(** so every description text is word-internal data: the token skeleton of the file is that of the fixed text alone
+    ([zpskel]), and the level-1 payload -- what zsh hands to [_arguments] and [_describe] after quote removal -- is the
+    fixed payload plus, per slot, the level-1 image of the text ([zplits]: [zsh_l1] / [zsh_pos_l1], to which the level-2
+    theorems [C17_zsh_spec_description], [C17_zsh_spec_field], [C17_zsh_positional_field] apply) *)
+Theorem C17_zsh_script_texts_literal : forall bl c d,
+  ztame_cmd c = true -> forall ps, zsh_pieces bl c d = Some ps ->
+  exists s, zsh_script bl c d = Some s /\
+    skeleton (events sh_step ZB s) = zpskel ZB ps /\ lits (events sh_step ZB s) = zplits ZB ps /\
+    zbare (final sh_step ZB s) = true.
+Proof. exact zsh_texts_literal. Qed.
+Print Assumptions C17_zsh_script_texts_literal.
+
+(** the token skeleton and the final lexer state of the ENTIRE file are the same for any two assignments of description
+    texts with the same presence shape *)
+Theorem C17_zsh_script_same_skeleton : forall bl c d1 d2 s1,
+  ztame_cmd c = true -> erase_desc d1 = erase_desc d2 -> zsh_script bl c d1 = Some s1 ->
+  exists s2, zsh_script bl c d2 = Some s2 /\
+    skeleton (events sh_step ZB s1) = skeleton (events sh_step ZB s2) /\
+    final sh_step ZB s1 = final sh_step ZB s2.
+Proof. exact zsh_text_invariance. Qed.
+Print Assumptions C17_zsh_script_same_skeleton.
+
+(** the pair of files the harness generates for the oracle (texts as given / innocuous text of the same emptiness) *)
+Theorem C17_zsh_script_adversarial_innocuous : forall bl c d s1,
+  ztame_cmd c = true -> zsh_script bl c d = Some s1 ->
+  exists s2, zsh_script bl c (innocuous_desc d) = Some s2 /\
+    skeleton (events sh_step ZB s1) = skeleton (events sh_step ZB s2) /\
+    final sh_step ZB s1 = final sh_step ZB s2.
+Proof. exact zsh_adversarial_innocuous. Qed.
+Print Assumptions C17_zsh_script_adversarial_innocuous.
+
+(** satisfiable: the two-level tree of [C16_zsh_ok_nonvacuous] with quotes, [$(..)], backticks, brackets, colons and a
+    backslash in every slot against innocuous texts; both files exist and differ *)
+Theorem C17_zsh_script_nonvacuous :
+  ztame_cmd zx_root = true /\ erase_desc zl_adv = erase_desc zl_inn /\ zl_adv <> zl_inn /\
+  exists s1 s2, zsh_script bl0 zx_root zl_adv = Some s1 /\ zsh_script bl0 zx_root zl_inn = Some s2 /\ s1 <> s2.
+Proof. exact zsh_text_invariance_hyps. Qed.
+Print Assumptions C17_zsh_script_nonvacuous.
+
+(** class boundary: an option NAME with a single quote is written unescaped; it ends the quoted spec early and the help
+    behind it is read outside the quotes (recorded family [C17-names-unescaped]) *)
+Theorem C17_zsh_script_untamed_name_refuted :
+  exists c d1 d2 s1 s2,
+    ztame_cmd c = false /\ erase_desc d1 = erase_desc d2 /\
+    zsh_script bl0 c d1 = Some s1 /\ zsh_script bl0 c d2 = Some s2 /\
+    skeleton (events sh_step ZB s1) <> skeleton (events sh_step ZB s2).
+Proof. exact zsh_untamed_name_refuted. Qed.
+Print Assumptions C17_zsh_script_untamed_name_refuted.
+(** Level 2: the [_arguments] specs and [_describe] items.  [spec_line c d g line]: [line] is one of the quoted spec
+    lines the model writes for the command [c] (an option spec per spelling, a flag spec per spelling, a positional
+    spec, a ['name:about'] item per subcommand name or visible alias); the C16 theorems [C16_zsh_block_options],
+    [C16_zsh_block_flags], [C16_zsh_block_positionals], [C16_zsh_describe_entries], [C16_zsh_path_block] place these lines
+    in the file.  [payload line st]: what zsh's word lexer hands on after quote removal.  [zrun2] threads the word
+    lexer AND the spec lexer of [ShellLex.v] through the pieces. *)
+
+(** generic: when both lexers run through a word list (every escape_help slot inside quotes and in the description or
+    a field of the spec, every positional help inside quotes in a field), the level-2 events of its payload are those
+    of the fixed text plus, per slot, the text itself as literal payload (newlines flattened by escape_help) *)
+Theorem C17_zsh_level2_events : forall l s1 s2 st, zrun2 s1 s2 l = Some st ->
+  events zspec_step s2 (payload l s1) = zpev2 s1 s2 l /\ final zspec_step s2 (payload l s1) = snd st.
+Proof. exact zrun2_events. Qed.
+Print Assumptions C17_zsh_level2_events.
+
+(** every spec line of a tame command runs at both levels and ends on the continuation backslash ([gtame g]: the parent
+    command handed to [arg_conflicts] for global arguments is tame too -- the exclusion list [(-x --exclude)] is fixed text
+    made of option spellings) *)
+Theorem C17_zsh_spec_lines_run : forall bl c d g line st,
+  ztame_cmd c = true -> gtame g -> spec_line bl c d g line -> zbare st = true ->
+  exists s2, zrun2 st ZsPre line = Some (ZBS, s2).
+Proof. exact zsh_spec_lines_run2. Qed.
+Print Assumptions C17_zsh_spec_lines_run.
+
+(** level-2 structure invariance per spec line: any line with the same fixed text has the same [_arguments]-level token
+    skeleton and final state -- brackets and colons in a help, about or tooltip text never become structure *)
+Theorem C17_zsh_spec_line_level2 : forall bl c d g line line' st,
+  ztame_cmd c = true -> gtame g -> spec_line bl c d g line -> zbare st = true -> map zperase line = map zperase line' ->
+  skeleton (events zspec_step ZsPre (payload line st)) = skeleton (events zspec_step ZsPre (payload line' st)) /\
+  final zspec_step ZsPre (payload line st) = final zspec_step ZsPre (payload line' st).
+Proof. exact zsh_spec_line_level2. Qed.
+Print Assumptions C17_zsh_spec_line_level2.
+
+(** the lines written for other texts of the same presence shape are such lines *)
+Theorem C17_zsh_spec_lines_fixed_text : forall bl c g a ad card about w,
+  opt_lines bl c g (a, erase_adesc ad) = map (map zperase) (opt_lines bl c g (a, ad)) /\
+  flag_lines bl c g (a, erase_adesc ad) = map (map zperase) (flag_lines bl c g (a, ad)) /\
+  positional_line card (a, erase_adesc ad) = map zperase (positional_line card (a, ad)) /\
+  describe_entry (erase_opt about) w = map zperase (describe_entry about w).
+Proof. exact spec_lines_fixed_text. Qed.
+Print Assumptions C17_zsh_spec_lines_fixed_text.
+
+(** level 3 stays a class boundary (recorded finding [C17-zsh-tooltip-dquote]): escape_help leaves a double quote as it
+    is, at both levels it is payload, and inside the eval'd double-quoted string it ends the string *)
+Theorem C17_zsh_tooltip_dquote_boundary :
+  zsh_escape_help [34%N] = [34%N] /\ zsh_l1 [34%N] = [34%N] /\ final sh_step ZDQ [34%N] = ZW.
+Proof. exact zsh_tooltip_dquote_boundary. Qed.
+Print Assumptions C17_zsh_tooltip_dquote_boundary.
+(* ---- end zsh generator model ---- *)
